@@ -290,7 +290,7 @@ def r_gate(ck: Checker) -> None:
         ck.holds("R-GATE", h, loops[0], what)
     else:
         if skipped_unchecked is not None:
-            ck.violation("R-GATE", h, h.node, what, construct=f"_check_runtime_types: when {skipped_unchecked} a field is passed over without being checked")
+            ck.violation("R-GATE", h, h.node, what, positive=True, construct=f"_check_runtime_types: when {skipped_unchecked} a field is passed over without being checked")
         elif polarity_bad:
             ck.violation("R-GATE", h, h.node, what, construct="_check_runtime_types: a field is reported when its value conforms (inverted test)")
         elif not any(isinstance(c_, ast.Call) and dotted(c_.func) == "is_instance" for c_ in ast.walk(h.node)):
@@ -356,7 +356,7 @@ def r_union_first(ck: Checker) -> None:
         elif verdict in (None, "ok"):
             verdict = "?" + got[:60]
     if verdict is not None and verdict.startswith("is_instance: a union / optional"):
-        ck.violation("R-UNION-FIRST", f, f.node, what, construct=verdict)
+        ck.violation("R-UNION-FIRST", f, f.node, what, positive=True, construct=verdict)
     elif verdict == "ok":
         ck.holds("R-UNION-FIRST", f, f.node, what)
     elif verdict is None or verdict.startswith("?"):
